@@ -30,7 +30,7 @@ COMPONENTS = {
 }
 ASSUMPTIONS = [
     'bulk reading (csv_path mode) of the same bytes by the same reader is the reference, as the property states',
-    'only valid UTF-8 (or any bytes under the binary encoding) is generated; behaviour on invalid UTF-8 is not asserted',
+    'valid UTF-8 (or any bytes under the binary encoding) must give the same records, warnings and messages as bulk reading; for content that is not valid UTF-8 (a cut or stray byte at the very end) only the fact and the class of the rejection are compared',
     'liveness is counted in event-loop turns after the producer pushed EOF; stream error events are not simulated',
 ]
 
